@@ -60,20 +60,21 @@ type deferEntry struct {
 }
 
 type Frame struct {
-	fn        *ssa.Function
-	regs      map[ssa.Value]Val
-	defers    []*deferEntry
-	parent    *Frame
-	callInstr ssa.Instruction // call in the parent that created this frame (nil for top)
-	block     *ssa.BasicBlock
-	idx       int
-	prev      *ssa.BasicBlock
-	freeVars  []Val
-	depth     int
-	kind      int // 0 = ordinary call, 1 = deferred call run by rundefers, 2 = deferred call run by unwinding
-	loopSeen  map[*ssa.BasicBlock]bool
-	locals    map[string]localRef // source-level names (from DebugRef)
-	onRet     func(s *State)      // fkDeferLoop: runs when the frame returns; the path ends there
+	fn            *ssa.Function
+	regs          map[ssa.Value]Val
+	defers        []*deferEntry
+	parent        *Frame
+	callInstr     ssa.Instruction // call in the parent that created this frame (nil for top)
+	block         *ssa.BasicBlock
+	idx           int
+	prev          *ssa.BasicBlock
+	freeVars      []Val
+	depth         int
+	kind          int // 0 = ordinary call, 1 = deferred call run by rundefers, 2 = deferred call run by unwinding
+	loopSeen      map[*ssa.BasicBlock]bool
+	locals        map[string]localRef // source-level names (from DebugRef)
+	onRet         func(s *State)      // fkDeferLoop: runs when the frame returns; the path ends there
+	loopAllocBase Term                // allocation counter at the head of the innermost loop being executed
 }
 
 type localRef struct {
